@@ -99,6 +99,9 @@ class Program:
             self.folded_helpers = inline_new_helpers({n: t for n, _, _, _, t in parsed}, reference_functions())
         except RecursionError:
             self.folded_helpers = []
+        from .inline import inline_new_constants, reference_constants
+
+        self.folded_constants: list[str] = inline_new_constants({n: t for n, _, _, _, t in parsed}, reference_constants())
         for name, path, src, raw, tree in parsed:
             from .canon import canon_module
 
